@@ -574,7 +574,7 @@ func RunScenario(s *Scenario, tw *trace.Writer) (sum trace.M, err error) {
 	res, rerr, pan := sim.Schedule()
 	removeHook()
 	if pan != "" {
-		emit(trace.M{"e": "Panic", "where": "Schedule", "msg": pan})
+		emit(trace.M{"e": "Panic", "where": "Schedule", "msg": pan, "class": PanicClass(pan)})
 	}
 	ev := sim.ResultsEvent(res, rerr, "schedule")
 	emit(ev)
@@ -583,7 +583,7 @@ func RunScenario(s *Scenario, tw *trace.Writer) (sum trace.M, err error) {
 		names, cerr := func() (n []string, e error) {
 			defer func() {
 				if r := recover(); r != nil {
-					emit(trace.M{"e": "Panic", "where": "CreateNodeClaims", "msg": trunc(fmt.Sprint(r), 200)})
+					emit(trace.M{"e": "Panic", "where": "CreateNodeClaims", "msg": trunc(fmt.Sprint(r), 200), "class": PanicClass(fmt.Sprint(r))})
 				}
 			}()
 			return sim.Prov.CreateNodeClaims(sim.Ctx, res.NewNodeClaims, provisioning.WithReason("provisioned"))
